@@ -7,7 +7,8 @@ cd /verif || exit 2
 fail=0
 for d in seeded/${1:-*}/; do
   id=$(basename "$d")
-  prop=$(python3 -c "import json,sys; print(json.load(open('$d/meta.json')).get('breaks_property') or 'NEUTRAL')")
+  prop=$(python3 -c "import json,sys; m=json.load(open('$d/meta.json')); print('OUT' if m.get('out_of_scope') else (m.get('breaks_property') or 'NEUTRAL'))")
+  if [ "$prop" = "OUT" ]; then echo "$id out of scope of the claimed properties (kept for the record)"; continue; fi
   if ! git -C /repo apply --check "/verif/$d/patch.diff" 2>/dev/null; then echo "$id SKIPPED (patch does not apply to the current HEAD)"; continue; fi
   git -C /repo apply "/verif/$d/patch.diff"
   if [ "$prop" = "NEUTRAL" ]; then
